@@ -577,6 +577,36 @@ func TestVerif(t *testing.T) {
 		if err := json.Unmarshal(rc, &tc); err != nil {
 			t.Fatal(err)
 		}
+		if strings.Contains(tc.Plugin, " -> ") {
+			// a chain case: re-run the whole pair (its documents are derived from the two configs)
+			pn, cn := strings.SplitN(tc.Plugin, " -> ", 2), strings.SplitN(tc.Config, " -> ", 2)
+			find := func(typ, js string) (*pluginSpec, *cfgSpec) {
+				for _, s := range specs {
+					if s.Type != typ {
+						continue
+					}
+					for ci := range s.Configs {
+						if s.Configs[ci].JSON == js {
+							return s, &s.Configs[ci]
+						}
+					}
+				}
+				return nil, nil
+			}
+			sa, ca := find(pn[0], cn[0])
+			sb, cb := find(pn[1], cn[1])
+			if sa == nil || sb == nil {
+				t.Fatalf("unknown chain %q / %q", tc.Plugin, tc.Config)
+			}
+			rn.runChain(chainCase{A: sa, B: sb, cA: ca, cB: cb})
+			for _, v := range r.R.Violations {
+				fmt.Printf("REPLAY VIOLATION %s %v: %s\n", v.Clause, v.Features, v.Detail)
+			}
+			if len(r.R.Violations) == 0 {
+				fmt.Println("REPLAY OK (no violation)")
+			}
+			return
+		}
 		var spec *pluginSpec
 		for _, s := range specs {
 			if s.Type == tc.Plugin {
@@ -722,6 +752,11 @@ func TestVerif(t *testing.T) {
 			rn.runSequences(w.spec, w.cfg, w.ci, w.alpha, w.first, w.length)
 		}
 	}
+	perPlugin := 2
+	if r.Thorough() {
+		perPlugin = 6
+	}
+	rn.runChains(specs, perPlugin, int64(len(items)))
 	r.Count("sequences_cut_at_undeliverable_timeout", rn.pruned)
 	curCase.Store(nil)
 }
